@@ -95,6 +95,14 @@ def run(tier, replay=None):
         if not a["wf"]:
             rep.count("skipped:not-wellformed")
             continue
+        if not P.checks_typed(c):
+            rep.count("skipped:check-of-another-kind-than-the-column")
+            continue
+        if a.get("outOfScope"):
+            # an ordering/string check on an empty or all-null column of another kind: pandas raises for the
+            # column as a whole, the element-wise model has no element to look at (DESIGN.md §8)
+            rep.count("skipped:ill-typed-check-on-vacuous-column")
+            continue
         impl_accept = o["kind"] == "ok"
         rep.count("impl:" + o["kind"])
         rep.count("sat:" + str(a["sat"]))
